@@ -15,23 +15,26 @@ import vf
 import g8gov as G
 
 META = {
-    "text": "Theorems (Coq, no axioms) over an executable model of aergo.system / aergo.name: the block-boundary invariant GovInv "
-            "(staking total = sum of stakes; balance(aergo.system) = total + donated; every candidate tally = sum of the amounts of the "
-            "votes naming it; vote amount <= stake; rankings duplicate-free) is preserved by every stake / unstake / voteBP / voteDAO and by "
-            "plain transfers, for all histories; lock-period and minimum-stake refusals; unstake pays back exactly the amount; the ranking is "
-            "the unique sorted permutation of the tallies under the repaired VoteList.Less (strict total order, proved) while the comparator "
-            "at HEAD is refuted (F10 witness); voting-power buckets on disk mirror memory after every apply and are ordered by account id; "
-            "the literal clauses 'balance = total' (F19) and 'memory vpr = reload' under discarded executions (F12) are refuted by witnesses; "
-            "names: one owner per name, created only for >= price when free, updated only by the owner; the stored ranking bytes round-trip. "
-            "Refuted with witnesses: memory = reload for system parameters after a negative parameter vote (new finding). "
-            "The model is tied to /repo on every run: the real contract/system and contract/name code is driven over generated multi-account "
-            "histories across the lock periods and the model must reproduce every observable after every transaction.",
-    "note": "Trusted: Coq kernel/vm_compute; engines + generator; the engine replays chain.executeTx's handling of a governance tx "
-            "(fresh account copies, stage only on success) at package level, the block executor itself is exercised by the C02 engine; "
-            "storage encodings compared through the package's own getters; sort.Sort assumed to return a permutation without inversions; "
-            "the red-black tree topVoters.members / vpr.lowest are not modelled (not read by block execution; corrupted by ordinary histories, "
-            "reported as a known finding); event strings not modelled.",
-    "technique": "Coq invariant proofs over a Gallina governance model + vm_compute correspondence against the real contract/system and contract/name packages",
+    "text": "30 axiom-free Coq theorems over an executable model of aergo.system / aergo.name (coq/Gov). FULL: GovInv for every history of "
+            "governance txs (accepted, rejected, discarded), block boundaries, restarts, plain transfers, per-block fork versions: staking total = sum of stakes; balance(aergo.system) = total + donated; every tally = sum of the ballots naming the "
+            "candidate; 0 <= vote <= stake; rankings duplicate free; proposal totals. FULL: exact unstake pay-back; lock / minimum / must-stake "
+            "refusals; rejected tx changes nothing; VoteList.Less strict total, ranking unique, stored bytes round-trip; vpr buckets ordered and "
+            "canonical; parameter values positive; six name-registry theorems. PARTIAL: memory = loadVpr(state) proved for the "
+            "buckets of histories in which every executed block state is connected (total power / powers map only compared at run time). REFUTED with "
+            "witnesses: balance = total (C15:transfer-to-system-account, F19), memory = reload after a discarded execution "
+            "(C15:vpr-residue-discarded-execution, F12). Tie to /repo on every run: in-package engines drive the real contract/system and contract/name "
+            "code over ~2700 operations (random, byte-length-crossing, fork-crossing, parameter-vote, corpus histories) as "
+            "chain.executeTx does; the model must reproduce every observable after every op (balances, stakes, ballots, rankings, params "
+            "memory/next/state, in-memory and reloaded vpr, GetRankers, 14 PickVotingRewardWinner draws); GovInv clauses, lock rules, memory-vs-state of vpr "
+            "and params, bucket order, winner interval are also evaluated directly on the dumps; F19 is reproduced through the real block executor.",
+    "note": "Trusted: Coq 8.16 kernel + vm_compute (no axioms); the engines harness/engines/gov (package-level replay of executeTx/NewTxExecutor: fresh "
+            "account copies, stage on success, snapshot rollback on error) and the generators/emitters lib/g8gov.py; sort.Sort returns an inversion-free "
+            "permutation; aergo-lib memory DB; storage encodings compared through the package's own getters. Modelled, not verified: big.Int.Bytes() as "
+            "Z.abs; account ids as integers; the random draw r of the reward winner is an input. Not modelled: red-black tree topVoters.members, vpr.lowest "
+            "(not read by execution), event strings, the two hard-coded mainnet exceptions of addVpr/subVpr, contract-creator lookup in UpdateName, "
+            "v1setOwner (C01), GetRankers' use of the in-memory BPCOUNT is modelled as is (C08's finding). Theorem assumptions: tx amounts >= 0, voteDAO "
+            "issue in the catalog; after a panic the history ends.",
+    "technique": "Coq invariant proofs over a Gallina governance model + vm_compute correspondence and direct predicates against the real contract/system and contract/name packages",
 }
 
 ENG = os.path.join(vf.HARNESS, "engines/gov/zz_verif_gov_engine_test.go")
